@@ -360,7 +360,8 @@ class KindInferenceMapper(Mapper):
         return self.map_product_like((expr.numerator, expr.denominator))
 
     def map_power(self, expr):
-        if self.check and not isinstance(self.rec(expr.exponent), Scalar):
+        if self.check and not isinstance(
+                self.rec(expr.exponent), (Scalar, Integer)):
             raise TypeError(
                     "exponentiation by '%s'"
                     "is meaningless"
@@ -483,7 +484,7 @@ class SymbolKindFinder:
                     result.global_table,
                     result.per_phase_table.setdefault(phase_name, {}),
                     self.function_registry,
-                    check=False)
+                    check=check)
 
         while True:
             stmt_queue = []
